@@ -87,6 +87,28 @@ fn probes() -> &'static Vec<Probe> {
                 out.push(Probe { name: format!("valid: {name}"), class, bytes: s.bytes });
             }
         }
+        // frames that start from the dictionary's tables: Repeat mode / treeless in the first block
+        let mut z = zspec::rng::Rng::new(0xC07);
+        for (d, _) in dicts() {
+            let mut n = 0;
+            let mut tries = 0;
+            while n < 12 && tries < 400 {
+                tries += 1;
+                let plan = synth::random_plan_with_dict(&mut z, d, 4000);
+                let s = synth::synthesise(&plan);
+                if !s.rule_violations.is_empty() {
+                    continue;
+                }
+                // keep the ones whose first compressed block repeats a dictionary table
+                if let Ok(info) = frames::walk(&s.bytes, Some(&zspec::dict::write_dict(d))) {
+                    let uses = info.blocks.iter().find(|b| b.btype == 2).map(|b| b.sequences.as_ref().map(|q| q.ll_mode == 3 || q.of_mode == 3 || q.ml_mode == 3).unwrap_or(false) || b.literals.as_ref().map(|l| l.ltype == 3).unwrap_or(false)).unwrap_or(false);
+                    if uses {
+                        out.push(Probe { name: format!("valid: dictionary {} tables repeated in the first block #{n}", d.id), class: "valid: dictionary tables first", bytes: s.bytes });
+                        n += 1;
+                    }
+                }
+            }
+        }
         out
     })
 }
@@ -261,7 +283,27 @@ fn gen_history(r: &mut Rng) -> Vec<HistItem> {
             }
             5 | 6 => {
                 let (mut f, n) = pick_valid(r);
-                let what = match r.below(3) {
+                let what = match r.below(5) {
+                    3 | 4 => {
+                        // a block that ends at a structural point: the section parsers fail half way through
+                        match frames::walk(&f, None).ok().and_then(|info| frames::shrink_block_at(r, &f, &info)) {
+                            Some((g, what)) => {
+                                f = g;
+                                what
+                            }
+                            None => {
+                                // frames with several compressed blocks from the feature matrix are good candidates
+                                let c = r.pick(matrix);
+                                match frames::walk(&c.bytes, c.dict.as_deref()).ok().and_then(|info| frames::shrink_block_at(r, &c.bytes, &info)) {
+                                    Some((g, what)) => {
+                                        f = g;
+                                        what
+                                    }
+                                    None => "unchanged",
+                                }
+                            }
+                        }
+                    }
                     0 if f.len() > 8 => {
                         let cut = r.usize(6, f.len() - 1);
                         f.truncate(cut);
@@ -300,6 +342,51 @@ fn gen_history(r: &mut Rng) -> Vec<HistItem> {
     h
 }
 
+fn probe_once(rec: &Recorder, args: &Args, h: &[HistItem], probe: &Probe, style: u64, i: u64) {
+    rec.eval();
+    let res = catch(|| {
+        let mut used = new_decoder();
+        apply_history(&mut used, h);
+        let mut fresh = new_decoder();
+        for item in h {
+            if let HistItem::SetLimit(l) = item {
+                fresh.set_max_window_size(*l);
+            }
+        }
+        let fp_used = used.verif_fingerprint();
+        let fp_fresh = fresh.verif_fingerprint();
+        let a = observe(&mut used, &probe.bytes, style);
+        let b = observe(&mut fresh, &probe.bytes, style);
+        (a, b, fp_used != fp_fresh, used.verif_fingerprint() == fresh.verif_fingerprint())
+    });
+    rec.absorb_feats();
+    let replay = json!({"history": describe(h), "probe": probe.name, "probe_frame": hex(&probe.bytes), "style": style, "case": [args.seed, 7, i]});
+    match res {
+        Err(p) => rec.panic_violation(&p, &format!("probe class {}", probe.class), json!({"history": describe(h), "probe": probe.name}), replay),
+        Ok((a, b, state_left, fp_equal_after)) => {
+            if a != b {
+                let k = a.iter().zip(b.iter()).position(|(x, y)| x != y).unwrap_or(a.len().min(b.len()));
+                let what = a.get(k).map(|s| s.split(':').next().unwrap_or("").split(' ').next().unwrap_or("").to_string()).unwrap_or_else(|| "length".into());
+                rec.violation(
+                    Sig::new("reused_differs_from_fresh", probe.class, &format!("history={} first difference in '{}'", hist_class(h), what)),
+                    json!({"history": describe(h), "probe": probe.name, "reused": a.get(k), "fresh": b.get(k), "step": k, "post_probe_fingerprints_equal": fp_equal_after}),
+                    replay,
+                );
+            } else {
+                if state_left {
+                    rec.distinct(fnv_str(&format!("{}|{}|{style}", hist_class(h), probe.name)));
+                }
+                rec.count(&format!("probe_class_{}", probe.class), 1);
+                rec.count(&format!("history_{}", hist_class(h)), 1);
+                if !fp_equal_after {
+                    // diagnostic only: internal state differs although nothing observable does
+                    rec.count("diagnostic_post_probe_fingerprint_differs", 1);
+                }
+            }
+        }
+    }
+}
+
 pub fn run(args: &Args) -> i32 {
     let rec = Recorder::new("C07", "exploration", args);
     rec.set_rule("one evaluation = one (history, probe) pair: the probe frame is driven with the same schedule on the decoder that went through the history and on a fresh decoder with the same dictionaries, and the complete observation lists (reset result, every step's Ok/Err and error text, counters, tape, checksums) are compared; distinct_nontrivial = distinct (history class, probe, schedule style) triples whose pre-probe fingerprints differed from a fresh decoder's (i.e. the history really left state behind)");
@@ -310,12 +397,39 @@ pub fn run(args: &Args) -> i32 {
     }
     let pr = probes();
     rec.count("probes", pr.len() as u64);
+    // ---------------- directed: a frame that fails at every structural point of every compressed block, followed
+    // immediately by probes that read per-frame state before writing it
+    let state_probes: Vec<&Probe> = pr.iter().filter(|p| !p.class.starts_with("valid: feature") && !p.class.starts_with("valid: libzstd")).collect();
+    let mut failing: Vec<(Vec<u8>, String)> = Vec::new();
+    for c in frames::synth_matrix().iter() {
+        if c.bytes.len() > 20_000 || c.expected.len() > 300_000 {
+            continue;
+        }
+        if let Ok(info) = frames::walk(&c.bytes, c.dict.as_deref()) {
+            for (f, what) in frames::all_shrinks(&c.bytes, &info) {
+                failing.push((f, format!("{what}: {}", c.origin)));
+            }
+        }
+    }
+    rec.count("directed_failing_histories", failing.len() as u64);
+    {
+        use rayon::prelude::*;
+        failing.par_iter().enumerate().for_each(|(k, (f, name))| {
+            let mut r = Rng::for_case(args.seed, 71, k as u64);
+            let h = vec![HistItem::Fail(f.clone(), name.clone())];
+            for _ in 0..args.vol(12, 60) {
+                let probe = (*r.pick(&state_probes)).clone();
+                let style = r.below(3);
+                probe_once(&rec, args, &h, &probe, style, k as u64);
+            }
+        });
+    }
+
     let n = args.vol(3000, 200_000);
     par_cases(&rec, 7, n, |i, r| {
         let h = gen_history(r);
         // several probes per history
         for _ in 0..3 {
-            rec.eval();
             let probe: Probe = if r.chance(1, 5) {
                 let c = frames::libzstd_frame(r, 100_000);
                 Probe { name: c.origin, class: "valid: libzstd", bytes: c.bytes }
@@ -323,47 +437,7 @@ pub fn run(args: &Args) -> i32 {
                 r.pick(pr).clone()
             };
             let style = r.below(3);
-            let res = catch(|| {
-                let mut used = new_decoder();
-                apply_history(&mut used, &h);
-                let mut fresh = new_decoder();
-                for item in &h {
-                    if let HistItem::SetLimit(l) = item {
-                        fresh.set_max_window_size(*l);
-                    }
-                }
-                let fp_used = used.verif_fingerprint();
-                let fp_fresh = fresh.verif_fingerprint();
-                let a = observe(&mut used, &probe.bytes, style);
-                let b = observe(&mut fresh, &probe.bytes, style);
-                (a, b, fp_used != fp_fresh, used.verif_fingerprint() == fresh.verif_fingerprint())
-            });
-            rec.absorb_feats();
-            let replay = json!({"history": describe(&h), "probe": probe.name, "probe_frame": hex(&probe.bytes), "style": style, "case": [args.seed, 7, i]});
-            match res {
-                Err(p) => rec.panic_violation(&p, &format!("probe class {}", probe.class), json!({"history": describe(&h), "probe": probe.name}), replay),
-                Ok((a, b, state_left, fp_equal_after)) => {
-                    if a != b {
-                        let k = a.iter().zip(b.iter()).position(|(x, y)| x != y).unwrap_or(a.len().min(b.len()));
-                        let what = a.get(k).map(|s| s.split(':').next().unwrap_or("").split(' ').next().unwrap_or("").to_string()).unwrap_or_else(|| "length".into());
-                        rec.violation(
-                            Sig::new("reused_differs_from_fresh", probe.class, &format!("history={} first difference in '{}'", hist_class(&h), what)),
-                            json!({"history": describe(&h), "probe": probe.name, "reused": a.get(k), "fresh": b.get(k), "step": k, "post_probe_fingerprints_equal": fp_equal_after}),
-                            replay,
-                        );
-                    } else {
-                        if state_left {
-                            rec.distinct(fnv_str(&format!("{}|{}|{style}", hist_class(&h), probe.name)));
-                        }
-                        rec.count(&format!("probe_class_{}", probe.class), 1);
-                        rec.count(&format!("history_{}", hist_class(&h)), 1);
-                        if !fp_equal_after {
-                            // diagnostic only: internal state differs although nothing observable does
-                            rec.count("diagnostic_post_probe_fingerprint_differs", 1);
-                        }
-                    }
-                }
-            }
+            probe_once(&rec, args, &h, &probe, style, i);
             if i < 2 {
                 rec.sample(json!({"history": describe(&h), "probe": probe.name, "style": style}));
             }
